@@ -227,31 +227,47 @@ theorem quote_values (a : QuoteAssign) (ha : a ∈ Gen.LexAdvance.quoteAssigns)
     | .byte => ∃ c, src[p + a.off]? = some c ∧ c ∈ quotes :=
   QuoteAssign.check_sound a (List.all_eq_true.mp quotes_checked a ha) hq hg
 
-/-- the guard of the path `case '\\': if p+1 < len(l.src) && l.src[p+1] == quote { p++; l.column++ }`
-followed by the tail of the iteration for a character start -/
+/-- the guard of the path
+`case '\\': if p+1 < len(l.src) && (l.src[p+1] == quote || l.src[p+1] == '\\') { p++; l.column++ }`
+followed by the tail of the iteration for a character start: in a JS or CSS string a backslash
+escapes the quote AND another backslash (an escaped backslash does not escape the closing quote) -/
 def escGuard : List Lit :=
-  [.inb 0, .is 0 [.byte 0x5c] true, .inb 1, .is 1 [.quote] true, .is 0 [.byte 0x0a] false, .is 0 [.pred .isStartChar] true]
+  [.inb 0, .is 0 [.byte 0x5c] true, .inb 1, .is 1 [.quote, .byte 0x5c] true, .is 0 [.byte 0x0a] false,
+   .is 0 [.pred .isStartChar] true]
 
 /-- non-vacuity: that path is in the extracted table, is not the excluded shape, its guard holds of
-`\"a` at 0 with `quote = '"'`, and it advances two bytes and two columns -/
+`\"a` at 0 with `quote = '"'` and of `\\"` (an escaped backslash before the closing quote: the two
+backslashes are stepped over as a pair, the quote is left for the next iteration), and it advances
+two bytes and two columns -/
 example : ∃ s ∈ Gen.LexAdvance.segs, s.isLFCR = false ∧ GuardHolds s.guard [0x5c, 0x22, 0x61] 0 0x22 ∧
+    GuardHolds s.guard [0x5c, 0x5c, 0x22] 0 0x22 ∧
     run s.evs ((1, 5), s.base) = ((1, 7), 2) := by
   have h : Gen.LexAdvance.segs.any (fun s => s.guard == escGuard && s.evs == [.adv 1, .col 1, .adv 1, .col 1] &&
       s.base == 0 && !s.isLFCR) = true := by decide +kernel
   obtain ⟨s, hs, hc⟩ := List.any_eq_true.mp h
   simp only [Bool.and_eq_true, beq_iff_eq, Bool.not_eq_true'] at hc
   obtain ⟨⟨⟨hg, he⟩, hb⟩, hl⟩ := hc
-  refine ⟨s, hs, hl, ?_, by rw [he, hb]; decide⟩
-  rw [hg]
-  intro lit hm
-  simp only [escGuard, List.mem_cons, List.not_mem_nil, or_false] at hm
-  rcases hm with rfl | rfl | rfl | rfl | rfl | rfl
-  · show 0 + 0 < 3; decide
-  · exact ⟨0x5c, rfl, by decide⟩
-  · show 0 + 1 < 3; decide
-  · exact ⟨0x22, rfl, by decide⟩
-  · exact ⟨0x5c, rfl, by decide⟩
-  · exact ⟨0x5c, rfl, by decide⟩
+  refine ⟨s, hs, hl, ?_, ?_, by rw [he, hb]; decide⟩
+  · rw [hg]
+    intro lit hm
+    simp only [escGuard, List.mem_cons, List.not_mem_nil, or_false] at hm
+    rcases hm with rfl | rfl | rfl | rfl | rfl | rfl
+    · show 0 + 0 < 3; decide
+    · exact ⟨0x5c, rfl, by decide⟩
+    · show 0 + 1 < 3; decide
+    · exact ⟨0x22, rfl, by decide⟩
+    · exact ⟨0x5c, rfl, by decide⟩
+    · exact ⟨0x5c, rfl, by decide⟩
+  · rw [hg]
+    intro lit hm
+    simp only [escGuard, List.mem_cons, List.not_mem_nil, or_false] at hm
+    rcases hm with rfl | rfl | rfl | rfl | rfl | rfl
+    · show 0 + 0 < 3; decide
+    · exact ⟨0x5c, rfl, by decide⟩
+    · show 0 + 1 < 3; decide
+    · exact ⟨0x5c, rfl, by decide⟩
+    · exact ⟨0x5c, rfl, by decide⟩
+    · exact ⟨0x5c, rfl, by decide⟩
 
 /-- ASCII text is aligned -/
 theorem aligned_of_ascii {t : Bytes} (h : ∀ b ∈ t, b < 0x80) : Aligned t := by
